@@ -157,6 +157,7 @@ def run(cmd, timeout, env=None, stdin=None, cwd=None):
 
 
 _FRAME = re.compile(r"#\d+\s+0x[0-9a-f]+\s+in\s+(\S+)\s+(\S+)")
+_TSAN_FRAME = re.compile(r"#\d+\s+(\S+)\s+(\S+)\s+\(")      # TSan: "#0 func file:line (module+0x...)"
 
 
 def parse_san(err):
@@ -209,7 +210,7 @@ def tsan_reports(logprefix):
             kind = m.group(1).strip().replace(" ", "-")
             fr = []
             libfr = []
-            for fm in _FRAME.finditer(block):
+            for fm in _TSAN_FRAME.finditer(block):
                 fn_, loc = fm.group(1), fm.group(2)
                 loc = re.sub(r":\d+(:\d+)?$", "", loc)
                 fr.append(fn_)
